@@ -5,9 +5,14 @@
 // overloads), SetStatus, UpdateName, End with/without end time, and all of these after End} runs on
 // a real TracerProvider with 1..3 processors (SimpleSpanProcessor and a deferred-export processor)
 // in lock-step with a plain reference model. All caller storage is overwritten (and in a second
-// pass freed) as soon as each call returns. (ABI v1 has no Span::AddLink/AddLinks: links exist only
-// as start options.)
+// pass freed) as soon as each call returns.
+//
+// The file is built twice (harness/reg_c04.py): ABI v1 (the main build; no Span::AddLink/AddLinks,
+// links exist only as start options, no scope attributes) and ABI v2 (`c04_span_export_abi2`), which
+// runs only what the first build cannot: programs with AddLink / AddLinks (7 entry points) after
+// start and after End, and tracers obtained with instrumentation-scope attributes.
 #include <opentelemetry/sdk/resource/resource.h>
+#include <opentelemetry/sdk/trace/sampler.h>
 #include <opentelemetry/sdk/trace/samplers/always_on.h>
 #include <opentelemetry/sdk/trace/simple_processor.h>
 #include <opentelemetry/sdk/trace/tracer_provider.h>
@@ -18,6 +23,11 @@
 #include "vf_clock.h"
 
 using namespace c04;
+#if OPENTELEMETRY_ABI_VERSION_NO >= 2
+#define C04_ABI2 1
+#else
+#define C04_ABI2 0
+#endif
 // the message is only built when the check fails
 #define CK(cond, sig, msg) do { if (!(cond)) c.fail((sig), (msg)); } while (0)
 namespace sdkres = opentelemetry::sdk::resource;
@@ -39,6 +49,7 @@ struct Model {
   Win start_steady;    // steady clock, ns
   Win duration;        // filled at the first End
   AttrMap attrs;
+  AttrMap alt;         // keys set by the start attributes AND by the sampler: the other of the two values (either may win)
   std::vector<MEvent> events;
   std::vector<MLink> links;
   tr::StatusCode code = tr::StatusCode::kUnset;
@@ -56,14 +67,46 @@ const sdkres::Resource &the_resource() {
 }
 struct ScopeId { const char *name, *version, *schema; };
 const ScopeId kScopes[2] = {{"lib.a", "", ""}, {"lib.b", "1.2.3", "https://example.test/scope-schema"}};
+// instrumentation-scope attributes (ABI v2 only): a string, a string array with an empty and a NUL element, a number
+const KVList &scope_attr_list() {
+  static const KVList l = {{"scope.s", 6}, {"scope.a", 24}, {"scope.i", 1}};
+  return l;
+}
+
+// A sampler that answers RECORD_AND_SAMPLE and returns attributes of its own. The storage its values point to
+// belongs to the arena of the running StartSpan call and is scribbled / freed with it.
+const KVList &sampler_attr_list() {
+  static const KVList l = {{"sampler.attr", 2}, {"k1", 18}, {"k2", 8}};  // int64, string with NUL, int32[]
+  return l;
+}
+struct SamplerState { Arena *arena = nullptr; int calls = 0; };
+class AttrSampler final : public sdktr::Sampler {
+  SamplerState &st_;
+
+ public:
+  explicit AttrSampler(SamplerState &s) : st_(s) {}
+  sdktr::SamplingResult ShouldSample(const tr::SpanContext &, tr::TraceId, nostd::string_view, tr::SpanKind, const ot::common::KeyValueIterable &,
+                                     const tr::SpanContextKeyValueIterable &) noexcept override {
+    st_.calls++;
+    std::unique_ptr<std::map<std::string, AttributeValue>> m(new std::map<std::string, AttributeValue>);
+    for (auto &e : sampler_attr_list()) (*m)[e.first] = st_.arena->build(values()[e.second]);
+    return {sdktr::Decision::RECORD_AND_SAMPLE, std::move(m), nostd::shared_ptr<tr::TraceState>()};
+  }
+  nostd::string_view GetDescription() const noexcept override { return "c04-attribute-sampler"; }
+};
 
 struct Fixture {
-  std::vector<std::unique_ptr<Sink>> sinks;
+  std::vector<std::unique_ptr<Sink>> sinks;  // the configured processors
+  std::vector<std::unique_ptr<Sink>> late;   // processors attached while the span under test was running / after its End
   CounterIdGenerator::Log idlog;
+  SamplerState sampler_state;
+  bool sampler_attrs = false;
   std::unique_ptr<sdktr::TracerProvider> provider;
   nostd::shared_ptr<tr::Tracer> tracer;
   int scope = 0;
-  explicit Fixture(int cfg) {
+  AttrMap scope_attrs;  // what the tracer under test was obtained with
+  // `a`: caller storage of the GetTracer arguments (scribbled / freed before the span starts)
+  Fixture(int cfg, bool with_sampler, Arena &a, bool do_free) : sampler_attrs(with_sampler) {
     // 0: {simple}  1: {deferred}  2: {simple, deferred}  3: {simple, deferred, simple}
     static const char *kinds[4] = {"s", "d", "sd", "sds"};
     std::vector<std::unique_ptr<sdktr::SpanProcessor>> procs;
@@ -73,12 +116,29 @@ struct Fixture {
       if (*k == 's') procs.emplace_back(new sdktr::SimpleSpanProcessor(std::move(ex)));
       else procs.emplace_back(new DeferredProcessor(*sinks.back(), std::move(ex)));
     }
-    provider.reset(new sdktr::TracerProvider(std::move(procs), the_resource(), std::unique_ptr<sdktr::Sampler>(new sdktr::AlwaysOnSampler),
-                                             std::unique_ptr<sdktr::IdGenerator>(new CounterIdGenerator(idlog, false))));
+    std::unique_ptr<sdktr::Sampler> sampler;
+    if (with_sampler) sampler.reset(new AttrSampler(sampler_state));
+    else sampler.reset(new sdktr::AlwaysOnSampler);
+    provider.reset(new sdktr::TracerProvider(std::move(procs), the_resource(), std::move(sampler), std::unique_ptr<sdktr::IdGenerator>(new CounterIdGenerator(idlog, false))));
     scope = cfg % 2;
-    // both tracers exist; the span under test comes from one of them
-    auto other = provider->GetTracer(kScopes[1 - scope].name, kScopes[1 - scope].version, kScopes[1 - scope].schema);
-    tracer = provider->GetTracer(kScopes[scope].name, kScopes[scope].version, kScopes[scope].schema);
+    // several tracers exist; the span under test comes from one of them. ABI v2: scope lib.b carries attributes, lib.a
+    // does not, and a sibling with the same name / version / schema but the opposite choice is obtained first.
+    auto get = [&](int sc, bool with_attrs) {
+      nostd::string_view n = a.str(kScopes[sc].name), v = a.str(kScopes[sc].version), u = a.str(kScopes[sc].schema);
+#if C04_ABI2
+      return with_attrs ? provider->GetTracer(n, v, u, &a.kvi(scope_attr_list())) : provider->GetTracer(n, v, u, nullptr);
+#else
+      (void)with_attrs;
+      return provider->GetTracer(n, v, u);
+#endif
+    };
+    auto other = get(1 - scope, C04_ABI2 && scope == 0);
+#if C04_ABI2
+    auto sibling = get(scope, scope == 0);
+    if (scope == 1) apply_kv(scope_attrs, scope_attr_list());
+#endif
+    tracer = get(scope, C04_ABI2 && scope == 1);
+    a.done(do_free);
   }
 };
 
@@ -89,7 +149,7 @@ std::string type_of(const Owned &o) {
   return s.substr(0, p) + (p != std::string::npos && s[p] == '[' ? "[]" : "");
 }
 template <class M>
-void check_attrs(vf::Ctx &c, const std::string &where, const M &real, const AttrMap &want, const std::string &who) {
+void check_attrs(vf::Ctx &c, const std::string &where, const M &real, const AttrMap &want, const std::string &who, const AttrMap *alt = nullptr) {
   for (auto &kv : want) {
     auto it = real.find(kv.first);
     if (it == real.end()) {
@@ -98,6 +158,10 @@ void check_attrs(vf::Ctx &c, const std::string &where, const M &real, const Attr
       c.fail("C04:attr-missing:" + where, who + ": attribute '" + vfq::printable(kv.first, 24) + "' = " + show(kv.second) + " was recorded but is absent; got " + show_attrs(real));
     }
     if (!same(it->second, kv.second)) {
+      if (alt) {  // start attribute vs sampler attribute on one key: which of the two is "last" is not specified
+        auto al = alt->find(kv.first);
+        if (al != alt->end() && same(it->second, al->second)) continue;
+      }
       std::string got = show(it->second);
       bool scrib = got.find("###") != std::string::npos || got.find("SCRIBBLED") != std::string::npos;
       c.fail("C04:attr-value:" + where + ":" + type_of(kv.second) + (scrib ? ":caller-buffer-retained" : ""),
@@ -124,7 +188,7 @@ void check_span(vf::Ctx &c, const std::string &who, const sdktr::SpanData &d, co
   int64_t du = d.GetDuration().count();
   CK(m.duration.has(du), m.duration.exact() ? "C04:duration:explicit" : "C04:duration:default",
           who + vf::sfmt(": duration %lld not in [%lld,%lld]", (long long)du, (long long)m.duration.lo, (long long)m.duration.hi));
-  check_attrs(c, "span", d.GetAttributes(), m.attrs, who);
+  check_attrs(c, "span", d.GetAttributes(), m.attrs, who, &m.alt);
   // events, in call order
   auto &ev = d.GetEvents();
   CK(ev.size() == m.events.size(), "C04:event-count", who + vf::sfmt(": %zu events exported, %zu were added before End", ev.size(), m.events.size()));
@@ -170,6 +234,8 @@ void check_span(vf::Ctx &c, const std::string &who, const sdktr::SpanData &d, co
   const ScopeId &ws = kScopes[fx.scope];
   CK(sc.GetName() == ws.name && sc.GetVersion() == ws.version && sc.GetSchemaURL() == ws.schema, "C04:scope",
           who + ": instrumentation scope is '" + sc.GetName() + "'/'" + sc.GetVersion() + "'/'" + sc.GetSchemaURL() + "', the tracer was obtained as '" + ws.name + "'/'" + ws.version + "'/'" + ws.schema + "'");
+  // scope attributes the tracer was obtained with (ABI v2; none under ABI v1)
+  check_attrs(c, "scope", sc.GetAttributes(), fx.scope_attrs, who + " instrumentation scope");
 }
 
 // ---- alphabets ----------------------------------------------------------------------------------
@@ -188,11 +254,12 @@ const std::vector<KVList> &attr_sets() {
   }();
   return a;
 }
-std::vector<std::pair<tr::SpanContext, KVList>> link_set(int which) {
+// `salt` makes the targets of links added by different calls distinguishable (call order)
+std::vector<std::pair<tr::SpanContext, KVList>> link_set(int which, uint32_t salt = 0) {
   std::vector<std::pair<tr::SpanContext, KVList>> l;
   if (which == 0) return l;
-  tr::SpanContext remote(make_trace_id(0xaa, 1), make_span_id(0xaa, 2), tr::TraceFlags(1), true, tr::TraceState::FromHeader("l1=x,l2=y"));
-  tr::SpanContext local(make_trace_id(0xbb, 3), make_span_id(0xbb, 4), tr::TraceFlags(0), false);
+  tr::SpanContext remote(make_trace_id(0xaa, 1), make_span_id(0xaa, 2 + 16 * salt), tr::TraceFlags(1), true, tr::TraceState::FromHeader("l1=x,l2=y"));
+  tr::SpanContext local(make_trace_id(0xbb, 3), make_span_id(0xbb, 4 + 16 * salt), tr::TraceFlags(0), false);
   if (which == 1) { l.emplace_back(remote, KVList{}); return l; }
   l.emplace_back(local, attr_sets()[2]);
   l.emplace_back(remote, attr_sets()[1]);
@@ -223,7 +290,7 @@ struct Exec {
   std::vector<vf::H128> at_end;      // digest of each simple exporter's copy right after End
   int step_no = 0;
 
-  Exec(vf::Ctx &cc, bool f, int cfg) : c(cc), do_free(f), fx(cfg) {}
+  Exec(vf::Ctx &cc, bool f, int cfg, bool with_sampler = false) : c(cc), do_free(f), fx(cfg, with_sampler, arena(), f) {}
   Arena &arena() { arenas.emplace_back(new Arena); return *arenas.back(); }
 
   void start(const StartShape &s) {
@@ -245,6 +312,7 @@ struct Exec {
     for (auto &l : ll) { MLink ml; ml.ctx = l.first; apply_kv(ml.attrs, l.second); m.links.push_back(ml); }
     if (s.how == 5) init_list_model();
     nostd::string_view name = a.str(m.name);
+    fx.sampler_state.arena = &a;  // what the sampler returns lives (and dies) with this call's storage
     int64_t s0 = sys_now_ns(), m0 = steady_now_ns();
     switch (s.how) {
       case 0: span = fx.tracer->StartSpan(name, *opts); break;
@@ -266,11 +334,28 @@ struct Exec {
     *opts = tr::StartSpanOptions();  // the options object is caller storage as well
     delete opts;
     a.done(do_free);
+    fx.sampler_state.arena = nullptr;
     if (!s.times) { m.start = Win{s0, s1}; m.start_steady = Win{m0, m1}; }
     CK(span.get() != nullptr, "C04:start-null", "StartSpan returned a null span");
     ctx = span->GetContext();
     CK(ctx.IsValid() && span->IsRecording(), "C04:start-not-recording", "a span started under AlwaysOn is not recording or has an invalid context: " + show(ctx));
-    hist = vf::sfmt("Start(kind=%d,%s,attrs#%d,links#%d,how%d,name#%d)", s.kind, s.times ? "explicit-times" : "now", s.attrs, s.links, s.how, s.name);
+    hist = vf::sfmt("Start(kind=%d,%s,attrs#%d,links#%d,how%d,name#%d%s)", s.kind, s.times ? "explicit-times" : "now", s.attrs, s.links, s.how, s.name, fx.sampler_attrs ? ",sampler-with-attributes" : "");
+    if (fx.sampler_attrs) {
+      // attributes returned by the sampler are set on the span right after it was started: they are "set before End" like any
+      // other and lose to every later SetAttribute; against a start attribute of the same key either value may stand
+      for (auto &e : sampler_attr_list()) {
+        auto it = m.attrs.find(e.first);
+        if (it != m.attrs.end() && !same(it->second, values()[e.second].v)) m.alt[e.first] = it->second;
+        m.attrs[e.first] = values()[e.second].v;
+      }
+    }
+    // the start notification reached every processor once, with that processor's own recordable (observable at the deferred ones)
+    for (size_t i = 0; i < fx.sinks.size(); ++i) {
+      Sink &sk = *fx.sinks[i];
+      if (!sk.deferred) continue;
+      CK(sk.on_start == 1, "C04:on-start-count", vf::sfmt("processor %zu (deferred): OnStart called %d times by StartSpan", i, sk.on_start));
+      CK(sk.on_start_foreign == 0, "C04:on-start:foreign-recordable", vf::sfmt("processor %zu (deferred): OnStart came with a recordable this processor did not make", i));
+    }
     c.step();
     after_op();
   }
@@ -288,7 +373,7 @@ struct Exec {
     const AttributeValue &v = a.val(vi);
     span->SetAttribute(k, v);
     a.done(do_free);
-    if (!m.ended) m.attrs[kKeys[key]] = values()[vi].v;
+    if (!m.ended) { m.attrs[kKeys[key]] = values()[vi].v; m.alt.erase(kKeys[key]); }
     hist += vf::sfmt(" SetAttribute('%s',%s)", kKeys[key], values()[vi].name.c_str());
   }
   void add_event(int ov) {
@@ -351,6 +436,64 @@ struct Exec {
     if (!m.ended) m.name = names[which];
     hist += " UpdateName('" + vfq::printable(names[which]) + "')";
   }
+  // TracerProvider::AddProcessor while the span is running (or after its End): the new processor has no recordable
+  // of this span, so it must stay silent; everybody else is unaffected
+  void add_processor() {
+    c.stage("AddProcessor");
+    fx.late.emplace_back(new Sink);
+    Sink &s = *fx.late.back();
+    s.late = true;
+    std::unique_ptr<sdktr::SpanExporter> ex(new KeepExporter(s));
+    std::unique_ptr<sdktr::SpanProcessor> p;
+    if (fx.late.size() % 2 == 1) p.reset(new DeferredProcessor(s, std::move(ex)));
+    else p.reset(new sdktr::SimpleSpanProcessor(std::move(ex)));
+    fx.provider->AddProcessor(std::move(p));
+    hist += fx.late.size() % 2 == 1 ? " AddProcessor(deferred)" : " AddProcessor(simple)";
+  }
+  void check_late(const char *when) {
+    for (size_t i = 0; i < fx.late.size(); ++i) {
+      Sink &s = *fx.late[i];
+      std::string who = vf::sfmt("processor added late #%zu (%s) %s, program: ", i, s.deferred ? "deferred" : "simple", when) + hist + "\n   ";
+      CK(s.null_recordables == 0, "C04:late-processor:null-recordable", who + vf::sfmt("its exporter was handed %d null recordables", s.null_recordables));
+      CK(s.exported.empty() && s.on_end == 0 && s.export_calls == 0, "C04:late-processor:notified",
+         who + vf::sfmt("it made no recordable for the span, yet got %d OnEnd / %d Export calls with %zu spans", s.on_end, s.export_calls, s.exported.size()));
+      CK(s.made.empty() && s.on_start == 0, "C04:late-processor:started", who + vf::sfmt("MakeRecordable called %zu times, OnStart %d times although no span was started since it was added", s.made.size(), s.on_start));
+    }
+  }
+#if C04_ABI2
+  // Span::AddLink / AddLinks (ABI v2), 7 entry points. The targets carry the step number, so call order is visible.
+  void add_link(int ov) {
+    c.stage(ov < 4 ? "AddLink" : "AddLinks");
+    Arena &a = arena();
+    auto ls = link_set(ov == 5 ? 3 : 2, (uint32_t)step_no);  // [0] local target, attribute set 2 (duplicate keys, empty key)  [1] remote target with trace state, set 1  [2] local again, one array
+    std::vector<MLink> added;
+    auto model = [&](const std::pair<tr::SpanContext, KVList> &l) { MLink ml; ml.ctx = l.first; apply_kv(ml.attrs, l.second); added.push_back(ml); };
+    switch (ov) {
+      case 0: span->AddLink(a.ctx(ls[1].first), a.kvi(ls[1].second)); model(ls[1]); break;    // ABI entry
+      case 1: span->AddLink(a.ctx(ls[0].first), a.kvi(ls[0].second)); model(ls[0]); break;    // ABI entry, duplicate keys
+      case 2: span->AddLink(a.ctx(ls[0].first), a.pairs(ls[0].second)); model(ls[0]); break;  // container helper
+      case 3: {                                                                                // initializer list
+        nostd::string_view k1 = a.str("k1"), k2 = a.str("k2");
+        span->AddLink(a.ctx(ls[1].first), {{k1, a.build(values()[6])}, {k2, a.build(values()[8])}, {k1, int64_t(99)}});
+        MLink ml; ml.ctx = ls[1].first; ml.attrs["k1"] = Owned(int64_t(99)); ml.attrs["k2"] = values()[8].v;
+        added.push_back(ml);
+        break;
+      }
+      case 4: span->AddLinks(a.links(ls)); for (auto &l : ls) model(l); break;                // ABI entry, three links
+      case 5: span->AddLinks(a.linkvec(ls)); for (auto &l : ls) model(l); break;              // container helper, link set with the 1000-element array
+      default: {                                                                               // initializer list: two links, the second without attributes
+        nostd::string_view k2 = a.str("k2");
+        span->AddLinks({{ls[1].first, {{k2, a.build(values()[9])}}}, {ls[0].first, {}}});
+        MLink m1; m1.ctx = ls[1].first; m1.attrs["k2"] = values()[9].v;
+        MLink m2; m2.ctx = ls[0].first;
+        added.push_back(m1); added.push_back(m2);
+      }
+    }
+    a.done(do_free);
+    if (!m.ended) for (auto &l : added) m.links.push_back(l);
+    hist += vf::sfmt(" %s#%d", ov < 4 ? "AddLink" : "AddLinks", ov);
+  }
+#endif
   void end(bool with_time) {
     c.stage("End");
     tr::EndSpanOptions *eo = new tr::EndSpanOptions;
@@ -387,6 +530,7 @@ struct Exec {
     step_no++;
     vf::H128 st;
     st.add(step_no * 2 + (int)span->IsRecording());
+    st.add(fx.late.size());
     for (auto &s : fx.sinks) {
       st.add(s->made.size());
       if (s->made.size() == 1) { vf::H128 d = digest(*s->made[0]); st.add(d.a); st.add(d.b); }
@@ -411,6 +555,7 @@ struct Exec {
     fx.provider.reset();
     for (size_t i = 0; i < fx.sinks.size(); ++i)
       CK(fx.sinks[i]->exported.size() == 1, "C04:export-count:after-shutdown", vf::sfmt("processor %zu has %zu spans after shutdown (one span was ended once)", i, fx.sinks[i]->exported.size()));
+    check_late("after shutdown");
   }
   void verify(const char *when) {
     c.stage("verify");
@@ -436,20 +581,30 @@ struct Exec {
       if (i == 0) first = cn;
       else if (!(cn == first)) c.fail("C04:copies-differ", who + "copy differs from processor 0's:\n   0: " + canon(*fx.sinks[0]->exported[0]) + "\n   this: " + canon(d));
     }
+    check_late(when);
     vf::H128 o = digest(*fx.sinks[0]->exported[0], false);
     c.outcome(vf::sfmt("%016llx%016llx|%zu", (unsigned long long)o.a, (unsigned long long)o.b, fx.sinks.size()));
   }
 };
 
 // one operation of the program alphabet; `full` crosses the whole value alphabet
-int n_ops(bool full) { return 3 * (full ? (int)values().size() : (int)reduced_values().size()) + 8 + 4 + 3 + 2; }
+#if C04_ABI2
+const int kLinkOps = 7;
+#else
+const int kLinkOps = 0;
+#endif
+int n_ops(bool full) { return 3 * (full ? (int)values().size() : (int)reduced_values().size()) + 8 + 4 + 3 + 2 + 1 + kLinkOps; }
 void do_op(Exec &x, int op, bool full) {
   int nv = full ? (int)values().size() : (int)reduced_values().size();
   if (op < 3 * nv) { int vi = op % nv; x.set_attribute(op / nv, full ? vi : reduced_values()[vi]); }
   else if ((op -= 3 * nv) < 8) x.add_event(op);
   else if ((op -= 8) < 4) x.set_status(op);
   else if ((op -= 4) < 3) x.update_name(op);
-  else x.end(op - 3 == 1);
+  else if ((op -= 3) < 2) x.end(op == 1);
+  else if ((op -= 2) < 1) x.add_processor();
+#if C04_ABI2
+  else x.add_link(op - 1);
+#endif
   x.c.step();
   x.after_op();
 }
@@ -468,6 +623,17 @@ void do_small_op(Exec &x, int op) {
   x.c.step();
   x.after_op();
 }
+#if C04_ABI2
+// the alphabet of the link programs: the small alphabet, AddProcessor and the 7 AddLink / AddLinks entry points
+const int kLinkAlphabet = kSmallOps + 1 + kLinkOps;
+void do_link_op(Exec &x, int op) {
+  if (op < kSmallOps) { do_small_op(x, op); return; }
+  if (op == kSmallOps) x.add_processor();
+  else x.add_link(op - kSmallOps - 1);
+  x.c.step();
+  x.after_op();
+}
+#endif
 
 const StartShape kStarts[4] = {
     {0, 0, 0, 0, 0, 0},  // all defaults
@@ -487,24 +653,33 @@ void setup(vf::Options &o) {
 void run(vf::Ctx &c) {
   vf::clock_reset();
   vf::clock_set_autostep_ns(1000);
-  int nparts = c.thorough() ? 5 : 3;
-  int part = c.pick("part", nparts);
+  // parts: 0 programs over the whole alphabet, depth 3   1 last-write-wins pairs   2 start options   3 depth 4   4 depth 5 with the
+  // full value alphabet at the end   5 a sampler that returns attributes   6 (ABI v2 build) programs with AddLink / AddLinks
+#if C04_ABI2
+  static const std::vector<int> kQuick = {6}, kThorough = {6, 0};
+#else
+  static const std::vector<int> kQuick = {0, 1, 2, 5}, kThorough = {0, 1, 2, 3, 4, 5};
+#endif
+  const std::vector<int> &parts = c.thorough() ? kThorough : kQuick;
+  int part = parts[c.pick("part", (int)parts.size())];
+  // parts 5 and 6: shape 0 = full product of (ownership pass, processors, start shape) at the smaller depth, 1 = covering combinations one deeper
+  int shape = part >= 5 ? c.pick("shape", 2) : 0;
   // (ownership pass, processor configuration, start shape): the deep parts use a covering subset of
   // the 2 x 4 x 4 product (every value of each dimension, every pair own x cfg shape kind), the
   // shallow parts and the thorough depth-3 part the full product
   static const int kCombos[6][3] = {{0, 3, 0}, {1, 3, 2}, {0, 2, 1}, {1, 1, 3}, {1, 0, 0}, {0, 1, 2}};
-  bool deep = part == 0 ? !c.thorough() : (part == 3 || part == 4);
+  bool deep = part == 0 ? (!c.thorough() || C04_ABI2) : part >= 5 ? shape == 1 : (part == 3 || part == 4);
   int own, cfg, start = 0;
   if (deep) {
-    const int *k = kCombos[c.pick("combo", part == 0 ? 6 : part == 3 ? 2 : 1)];
+    const int *k = kCombos[c.pick("combo", part == 3 || (part == 5 && c.thorough()) ? 2 : part == 4 ? 1 : 6)];
     own = k[0]; cfg = k[1]; start = k[2];
   } else {
     own = c.pick("ownership-pass", 2);
     cfg = c.pick("processors", 4);
-    if (part == 0) start = c.pick("start", 4);
+    if (part == 0 || part >= 5) start = c.pick("start", 4);
   }
   bool do_free = own == 1;
-  Exec x(c, do_free, cfg);
+  Exec x(c, do_free, cfg, part == 5);
   if (part == 0 || part == 3) {
     // every program of the depth bound over the whole operation alphabet (reduced value alphabet)
     x.start(kStarts[start]);
@@ -537,6 +712,20 @@ void run(vf::Ctx &c) {
     if (tail == 1) { x.end(true); c.step(); x.after_op(); }
     if (tail == 2) { x.set_attribute(0, 6); c.step(); x.after_op(); }
     if (tail == 3) { x.add_event(8); c.step(); x.after_op(); }
+  } else if (part == 5) {
+    // the sampler returns attributes (one new key, two keys that start attributes / SetAttribute also use): every program of
+    // depth 1 (thorough 2) from the full product, depth 2 (thorough 3) from covering combinations
+    x.start(kStarts[start]);
+    int depth = 1 + shape + (c.thorough() ? 1 : 0);
+    for (int d = 0; d < depth; ++d) do_op(x, c.pick("op", n_ops(false)), false);
+#if C04_ABI2
+  } else if (part == 6) {
+    // AddLink / AddLinks: every program of depth 2 (thorough 3) over the link alphabet from the full product, depth 3 (thorough 4)
+    // from covering combinations; start shapes 2 and 3 already carry links, so "start links first, then in call order" is decided
+    x.start(kStarts[start]);
+    int depth = 2 + shape + (c.thorough() ? 1 : 0);
+    for (int d = 0; d < depth; ++d) do_link_op(x, c.pick("op", kLinkAlphabet));
+#endif
   } else {
     // part 4 (thorough): depth 5, small alphabet at the first three positions, the full operation
     // and value alphabet crossed at the last two
